@@ -13,7 +13,7 @@ import multiprocessing as mp, re, time, traceback
 import z3
 from vlib import common
 
-NAMES = ["x", "y", "g"]
+NAMES = ["x", "y", "g", "Xs"]      # two lowercase local names, the name of a global, and a capitalised local name (legal for every binder except a case binding)
 G_ID = 0        # the global `g`
 
 
@@ -47,6 +47,10 @@ def templates():
     mk("nested_three_levels", lambda b: T(("decl", b.occ("d"), []), ("block", T(("decl", b.occ("d"), []), ("if", [b.occ("u")], T(("decl", b.occ("d"), []), ("use", b.occ("u"))), None), ("use", b.occ("u")))), ("use", b.occ("u"))))
     # a loop / a branch whose body is ONE statement instead of a do-block: a local declared there ends with the loop
     mk("loop_body_is_one_declaration", lambda b: T(("decl", b.occ("d"), []), ("loop1", b.occ("d"), [b.occ("u")]), ("use", b.occ("u")), ("loop1", b.occ("d"), []), ("use", b.occ("u"))))
+    # the same binder structures with a CAPITALISED local name (no case binding in these: a case binding has to be lowercase)
+    mk("caps_block_shadow", lambda b: T(("decl", b.occ("d"), []), ("block", T(("use", b.occ("u")), ("decl", b.occ("d"), [b.occ("u")]), ("use", b.occ("u")))), ("use", b.occ("u"))))
+    mk("caps_closure_params", lambda b: T(("decl", b.occ("d"), []), ("closure", b.occ("d"), [b.occ("d")], T(("use", b.occ("u")), ("decl", b.occ("d"), []), ("use", b.occ("u")))), ("use", b.occ("u"))))
+    mk("caps_loop_and_assign", lambda b: T(("decl", b.occ("d"), []), ("loop", [b.occ("u")], T(("decl", b.occ("d"), [b.occ("u")]), ("assign", b.occ("u")))), ("assign", b.occ("u")), ("use", b.occ("u"))))
     mk("sibling_branches", lambda b: T(("if", [], T(("decl", b.occ("d"), [])), T(("use", b.occ("u")))), ("block", T(("decl", b.occ("d"), []))), ("block", T(("use", b.occ("u"))))))
     return out
 
@@ -142,7 +146,8 @@ def work(job):
         for p_, i in occ_pos.items(): first_pos.setdefault(i, p_)
         sels = {i: z3.Int("name%d" % i) for i in b.kind}
         # index 0 = x, 1 = y, 2 = g ; with two names the choice is between x and g
-        base = [z3.And(v >= 0, v < len(NAMES)) for v in sels.values()] + ([v != 1 for v in sels.values()] if nnames == 2 else [])
+        if nnames == "caps": base = [z3.Or(v == 2, v == 3) for v in sels.values()]           # the capitalised name against the global's name
+        else: base = [z3.And(v >= 0, v < 3) for v in sels.values()] + ([v != 1 for v in sels.values()] if nnames == 2 else [])
         def sym(v):
             if isinstance(v, M.StructV):
                 if v.ty == "Identifier" and isinstance(v.fields[1], str) and re.fullmatch(r"n\d+", v.fields[1]):
@@ -324,7 +329,7 @@ def run(tier):
     from mirsym import pipeline
     art = common.artifacts(need_mir=pipeline.CRATES, need_replay=True)
     jobs = templates()
-    wjobs = [(n_, b_, st_, 3 if (tier != "quick" and len(b_.kind) <= 6) else 2) for n_, b_, st_ in jobs]
+    wjobs = [(n_, b_, st_, "caps" if n_.startswith("caps_") else (3 if (tier != "quick" and len(b_.kind) <= 6) else 2)) for n_, b_, st_ in jobs]
     with mp.get_context("fork").Pool(min(16, len(jobs))) as pool: results = pool.map(work, wjobs, chunksize=1)
     fnd = common.Findings("C09"); tot = {"paths": 0, "steps": 0, "queries": 0}; samples = []; replayed = 0
     by = {j[0]: j for j in jobs}
@@ -351,7 +356,8 @@ def run(tier):
     rnd = random.Random(common.seed()); val = 0
     for name, b, st in jobs:
         for _ in range(2 if tier == "quick" else 12):
-            names = {i: rnd.choice(NAMES[:2] if rnd.random() < 0.7 else NAMES) for i in b.kind}
+            pool = ["Xs", "g"] if name.startswith("caps_") else NAMES[:3]
+            names = {i: rnd.choice(pool[:2] if rnd.random() < 0.7 else pool) for i in b.kind}
             exp = expected_concrete(st, names); ok, vals, text = native_prints(art["sylt"], st, names); val += 1
             if ok != all(v != -1 for v in exp.values()):
                 fnd.report(("accepted-unresolvable:" if ok else "rejected-resolvable:") + name, "names %s: reference says %s, native compiler %s" % (names, "resolvable" if not ok else "some use unresolvable", "accepts" if ok else "rejects"), {"main.sy": text})
